@@ -1875,7 +1875,7 @@ theorem step_value_frame {s : State} (I : Inv s) (op : Op) :
       left; simp only [step]; split
       · rename_i hv
         obtain ⟨hil, hin⟩ := vacant_iff.1 hv
-        have C := (create_spec I hv hs.reverse v).2.2.2.2.1
+        have C := (create_spec I hv hs v).2.2.2.2.1
         intro k o o' h1 h2
         by_cases ek : k = i
         · subst ek; rw [hin] at h1; cases h1
